@@ -18,11 +18,11 @@ var c08Engines = []string{"memkv", "tikv", "badger", "memkv+m"}
 func init() {
 	Registry["C08"] = &Prop{
 		Plan: func(tier string) Plan {
-			return Plan{Level: "exploration", NCases: pick(tier, 200, 3000), Batch: 4, CaseTimeout: 120,
+			return Plan{Level: "exploration", NCases: pick(tier, 200, 30000), Batch: 4, CaseTimeout: 120,
 				Rule: "one case = a PRNG sequence of 6-20 compaction requests (increasing, repeated, decreasing, 0, above current) interleaved with writes on one engine; after each accepted compaction the monitor raises floor=max(floor, effective revision from the response header), reads the stored compaction record, and issues List / ListByStream at revisions around every past floor and Count at latest, on the compacting node and on a second node over the same store (which adopts the first node's read revision as a follower does). " +
 					"non-trivial = sequence containing >=1 request naming an older revision than an earlier accepted one and >=1 read refused below the floor; distinct by (engine, request vector)",
 				Assumptions: []string{"only compactions that returned without error raise the monitor's floor"},
-				MinConcl:    pick(tier, 150, 2500)}
+				MinConcl:    pick(tier, 150, 25000)}
 		},
 		Name: func(c *harness.Case) string { return "compact-seq-" + c08Engines[c.Index%len(c08Engines)] },
 		Run:  runC08,
